@@ -11,7 +11,8 @@ def val(v):
     if v["t"] == "int":
         return {"t": "int", "v": w8(v["v"])}
     if v["t"] == "flt":
-        return {"t": "flt", "n": v["v"]}
+        # a floating constant is its IEEE-754 image (what a QBE temporary of class s/d holds); strtod is glue, not semantics
+        return {"t": "int", "v": w8(ilparse.flt_bits(v["cls"], v["v"]))}
     return {"t": v["t"], "n": v["n"]}
 
 
